@@ -57,6 +57,7 @@ pub enum Kind { Compressed, Interned }
 
 trait B {
     fn add(&mut self, b: &SpendBundle, cost: u64) -> Result<bool, String>;
+    fn add_many(&mut self, bs: &[SpendBundle], cost: u64) -> Result<bool, String>;
     fn cost(&self) -> u64;
     fn fin(self: Box<Self>) -> Result<(Vec<u8>, Signature, u64), String>;
 }
@@ -64,11 +65,13 @@ struct C(BlockBuilder);
 struct I(InternedBlockBuilder);
 impl B for C {
     fn add(&mut self, b: &SpendBundle, cost: u64) -> Result<bool, String> { self.0.add_spend_bundles([b], cost, &TEST_CONSTANTS).map(|r| r.0).map_err(|e| e.to_string()) }
+    fn add_many(&mut self, bs: &[SpendBundle], cost: u64) -> Result<bool, String> { self.0.add_spend_bundles(bs.iter(), cost, &TEST_CONSTANTS).map(|r| r.0).map_err(|e| e.to_string()) }
     fn cost(&self) -> u64 { self.0.cost() }
     fn fin(self: Box<Self>) -> Result<(Vec<u8>, Signature, u64), String> { self.0.finalize(&TEST_CONSTANTS).map_err(|e| e.to_string()) }
 }
 impl B for I {
     fn add(&mut self, b: &SpendBundle, cost: u64) -> Result<bool, String> { self.0.add_spend_bundles([b], cost).map(|r| r.0).map_err(|e| e.to_string()) }
+    fn add_many(&mut self, bs: &[SpendBundle], cost: u64) -> Result<bool, String> { self.0.add_spend_bundles(bs.iter(), cost).map(|r| r.0).map_err(|e| e.to_string()) }
     fn cost(&self) -> u64 { self.0.cost() }
     fn fin(mut self: Box<Self>) -> Result<(Vec<u8>, Signature, u64), String> { self.0.finalize().map_err(|e| e.to_string()) }
 }
@@ -168,6 +171,59 @@ pub fn run_history(k: Kind, offers: &[Offer], check_fresh_estimate: bool) -> Res
     match r { Ok(r) => r, Err(_) => Err("panicked (finalize or add_spend_bundles)".into()) }
 }
 
+
+/// batches: several bundles offered in ONE call (declared cost = the sum of their true costs).  An accepted batch contributes
+/// all of its spends and exactly the aggregate of its signatures; the finalized generator validates and costs what is returned.
+pub fn run_batch_history(k: Kind, batches: &[Vec<u8>]) -> Result<String, String> {
+    let max = TEST_CONSTANTS.max_block_cost_clvm;
+    let r = catch_unwind(AssertUnwindSafe(|| -> Result<String, String> {
+        let mut b = fresh(k);
+        let mut accepted: Vec<[u8; 32]> = vec![];
+        let mut sig = Signature::default();
+        let mut decisions = String::new();
+        for tags in batches {
+            let made: Vec<(SpendBundle, [u8; 32])> = tags.iter().map(|t| bundle(*t, 0x80)).collect();
+            let bundles: Vec<SpendBundle> = made.iter().map(|m| m.0.clone()).collect();
+            let declared: u64 = bundles.iter().map(true_cost).sum();
+            let added = b.add_many(&bundles, declared)?;
+            if b.cost() > max { return Err(format!("running cost {} exceeds the limit", b.cost())); }
+            decisions.push(if added { 'A' } else { 'r' });
+            if added { for (bun, id) in &made { accepted.push(*id); sig += &bun.aggregated_signature; } }
+        }
+        let running = b.cost();
+        let (generator, fsig, cost) = b.fin()?;
+        if cost > max || cost > running { return Err(format!("finalize returned cost {cost}; limit {max}, running estimate {running}")); }
+        if fsig != sig { return Err("finalize returned a signature that is not the aggregate of exactly the accepted bundles".into()); }
+        let flags = if k == Kind::Interned { MEMPOOL_MODE | ConsensusFlags::INTERNED_GENERATOR } else { MEMPOOL_MODE };
+        let blocks: [&[u8]; 0] = [];
+        match run_block_generator2(&generator, blocks, u64::MAX / 2, flags, &fsig, None, &TEST_CONSTANTS) {
+            Err(e) => Err(format!("the finalized generator fails full validation under the returned signature: {e:?}")),
+            Ok((_, conds)) => {
+                let mut got: Vec<[u8; 32]> = conds.spends.iter().map(|s| (*s.coin_id).into()).collect();
+                got.sort(); accepted.sort();
+                if got != accepted { return Err(format!("the generator spends {} coins, the accepted batches {}", got.len(), accepted.len())); }
+                if conds.cost != cost { return Err(format!("returned cost {cost} differs from the consensus cost {} of the generator", conds.cost)); }
+                Ok(decisions)
+            }
+        }
+    }));
+    match r { Ok(r) => r, Err(_) => Err("panicked (finalize or add_spend_bundles)".into()) }
+}
+
+pub fn batch_histories() -> Vec<(String, Kind, Vec<Vec<u8>>)> {
+    let mut v = vec![];
+    for k in [Kind::Compressed, Kind::Interned] {
+        let kn = if k == Kind::Compressed { "compressed" } else { "interned" };
+        v.push((format!("{kn}/batch-of-two"), k, vec![vec![1, 2]]));
+        v.push((format!("{kn}/one-then-batch-of-two"), k, vec![vec![1], vec![2, 3]]));
+        v.push((format!("{kn}/batch-of-three-then-one"), k, vec![vec![1, 2, 3], vec![4]]));
+        v.push((format!("{kn}/two-batches-of-two"), k, vec![vec![1, 2], vec![3, 4]]));
+        v.push((format!("{kn}/batch-of-five-disjoint"), k, vec![vec![200, 201, 202, 203, 204]]));
+        v.push((format!("{kn}/empty-batch-then-two"), k, vec![vec![], vec![1, 2]]));
+    }
+    v
+}
+
 pub fn histories(thorough: bool) -> Vec<(String, Kind, Vec<Offer>)> {
     let mut v = vec![];
     for k in [Kind::Compressed, Kind::Interned] {
@@ -232,6 +288,21 @@ pub fn builders_ground(thorough: bool) -> EvalResult {
             }
         }
     }
+    for (name, k, batches) in batch_histories() {
+        res.obligations += 1;
+        match run_batch_history(k, &batches) {
+            Ok(info) => { if info.chars().all(|c| c == 'A') { res.discharged += 1; trace.push(format!("{name}:{info}")); } else if res.failures.len() < 6 {
+                res.failures.push(json!({"id": format!("builders_ground/{name}"), "function": "BlockBuilder / InternedBlockBuilder",
+                    "message": format!("history {name}: decisions '{info}': a batch with truthful costs far below the limit is refused"),
+                    "clause": "batches of several bundles per call", "cex": {"unit": "eval", "function": "builders_ground", "input": {"history": name}}})); } }
+            Err(m) => if res.failures.len() < 6 {
+                res.failures.push(json!({"id": format!("builders_ground/{name}"), "function": "BlockBuilder / InternedBlockBuilder",
+                    "message": format!("history {name}: {m}"),
+                    "clause": "an accepted batch contributes all of its spends and exactly the aggregate of its signatures; the generator validates and costs what finalize returns",
+                    "cex": {"unit": "eval", "function": "builders_ground", "input": {"history": name}}}));
+            },
+        }
+    }
     std::panic::set_hook(prev);
     trace.sort();
     res.samples.push(json!({"note": format!("decisions per history (A accepted, r refused): {}", trace.join(" "))}));
@@ -244,6 +315,11 @@ pub fn replay_builders(input: &Value) -> (bool, String) {
     let prev = std::panic::take_hook();
     std::panic::set_hook(Box::new(|_| {}));
     let mut out = (false, "unknown history".to_string());
+    for (name, k, batches) in batch_histories() {
+        if name == want {
+            out = match run_batch_history(k, &batches) { Ok(info) if info.chars().all(|c| c == 'A') => (false, format!("history {name}: holds")), Ok(info) => (true, format!("history {name}: decisions {info}")), Err(m) => (true, format!("history {name}: {m}")) };
+        }
+    }
     for (name, k, o) in histories(true) {
         if name == want {
             out = match run_history(k, &o, name.ends_with("/fresh-estimate")) {
